@@ -158,6 +158,7 @@ func queries() []wk.RQ {
 // finfo: what the reference says about one feature of one world, by itself.
 type finfo struct {
 	f     *wk.FSpec
+	def   string // the whole definition (FSpec.String): key of the geometry cache
 	ver   string // FeatureString without resolved geometry: id, tags with kinds (incl. point and path tags)
 	geo   string // with geometry, for features whose geometry does not depend on other features ("" otherwise)
 	loc   string
@@ -174,7 +175,7 @@ func newWinfo(spec wk.Spec, qs []wk.RQ) *winfo {
 	wi := &winfo{ids: spec.IDs(), byID: map[b6.FeatureID]*finfo{}}
 	for i := range spec {
 		f := &spec[i]
-		fi := &finfo{f: f, ver: ref.FeatureString(f.ID, false, false), loc: "err", match: make([]bool, len(qs))}
+		fi := &finfo{f: f, def: f.String(), ver: ref.FeatureString(f.ID, false, false), loc: "err", match: make([]bool, len(qs))}
 		if f.Kind == wk.KPoint {
 			fi.loc = f.LL.String()
 		}
@@ -201,6 +202,33 @@ func expect(bi, ui *winfo, base, upper wk.Spec, ids []b6.FeatureID, qs []wk.RQ) 
 		}
 		return bi.byID[id]
 	}
+	inUpper := func(id b6.FeatureID) bool { return ui.byID[id] != nil }
+	// union IDs in ID order
+	var all []*finfo
+	i, j := 0, 0
+	for i < len(bi.ids) || j < len(ui.ids) {
+		switch {
+		case j == len(ui.ids) || (i < len(bi.ids) && bi.ids[i].Less(ui.ids[j])):
+			all = append(all, bi.byID[bi.ids[i]])
+			i++
+		case i == len(bi.ids) || ui.ids[j].Less(bi.ids[i]):
+			all = append(all, ui.byID[ui.ids[j]])
+			j++
+		default: // same ID: the upper version
+			all = append(all, ui.byID[ui.ids[j]])
+			i++
+			j++
+		}
+	}
+	return expectCore(layer, inUpper, all, func() wk.Spec { return union(base, upper) }, ids, qs, false)
+}
+
+// expectCore: layer gives the version the layered world holds for an ID (nil =
+// absent), inUpper says whether the upper layer was GIVEN a version of the ID
+// (S: the upper world has it; M, H: it was passed to AddFeature), all lists the
+// held versions in ID order, unionSpec builds the layered world's reference
+// Spec (only called when a resolved geometry is needed).
+func expectCore(layer func(b6.FeatureID) *finfo, inUpper func(b6.FeatureID) bool, all []*finfo, unionSpec func() wk.Spec, ids []b6.FeatureID, qs []wk.RQ, eachGeometry bool) wk.Dump {
 	var u *wk.Ref // union reference, built only when a resolved geometry is needed
 	d := wk.Dump{}
 	for _, id := range ids {
@@ -233,7 +261,7 @@ func expect(bi, ui *winfo, base, upper wk.Spec, ids []b6.FeatureID, qs []wk.RQ) 
 		var depIDs []b6.FeatureID
 		for x := range seen {
 			depIDs = append(depIDs, x)
-			if _, inUpper := ui.byID[x]; inUpper && ui.byID[id] == nil {
+			if inUpper(x) && !inUpper(id) {
 				comparable = false // base-only feature over a replaced dependency: see geometryComparable
 			}
 		}
@@ -241,10 +269,10 @@ func expect(bi, ui *winfo, base, upper wk.Spec, ids []b6.FeatureID, qs []wk.RQ) 
 			continue
 		}
 		wk.SortIDs(depIDs)
-		key := fi.ver
+		key := fi.def
 		for _, x := range depIDs {
 			if g := layer(x); g != nil {
-				key += "|" + g.ver
+				key += "|" + g.def
 			} else {
 				key += "|missing " + x.String()
 			}
@@ -252,29 +280,12 @@ func expect(bi, ui *winfo, base, upper wk.Spec, ids []b6.FeatureID, qs []wk.RQ) 
 		g, ok := geoCache[key]
 		if !ok {
 			if u == nil {
-				u = wk.NewRef(union(base, upper))
+				u = wk.NewRef(unionSpec())
 			}
 			g = u.FeatureString(id, true, false)
 			geoCache[key] = g
 		}
 		d["geom:"+s] = g
-	}
-	// union IDs in ID order
-	var all []*finfo
-	i, j := 0, 0
-	for i < len(bi.ids) || j < len(ui.ids) {
-		switch {
-		case j == len(ui.ids) || (i < len(bi.ids) && bi.ids[i].Less(ui.ids[j])):
-			all = append(all, bi.byID[bi.ids[i]])
-			i++
-		case i == len(bi.ids) || ui.ids[j].Less(bi.ids[i]):
-			all = append(all, ui.byID[ui.ids[j]])
-			j++
-		default: // same ID: the upper version
-			all = append(all, ui.byID[ui.ids[j]])
-			i++
-			j++
-		}
 	}
 	for k, q := range qs {
 		var l []string
@@ -291,6 +302,17 @@ func expect(bi, ui *winfo, base, upper wk.Spec, ids []b6.FeatureID, qs []wk.RQ) 
 	}
 	sort.Strings(l)
 	d["each"] = strings.Join(l, " | ")
+	if eachGeometry {
+		// the enumerated version of every feature whose resolved geometry is judged, with that geometry
+		var gl []string
+		for _, fi := range all {
+			if g, ok := d["geom:"+fi.f.ID.String()]; ok {
+				gl = append(gl, g)
+			}
+		}
+		sort.Strings(gl)
+		d["each-geom"] = strings.Join(gl, " | ")
+	}
 	return d
 }
 
@@ -339,10 +361,18 @@ func observe(w b6.World, ids []b6.FeatureID, qs []wk.RQ, b6qs []b6.Query, want w
 			return strings.Join(l, " | ")
 		})
 	}
+	_, eachGeometry := want["each-geom"]
+	var gl []string
 	d["each"] = guard(func() string {
 		var l []string
+		gl = nil
 		err := w.EachFeature(func(f b6.Feature, g int) error {
 			l = append(l, wk.FeatureString(f, false, false))
+			if eachGeometry && f != nil {
+				if _, ok := want["geom:"+f.FeatureID().String()]; ok {
+					gl = append(gl, guard(func() string { return wk.FeatureString(f, true, false) }))
+				}
+			}
 			return nil
 		}, &b6.EachFeatureOptions{Goroutines: 1})
 		if err != nil {
@@ -351,6 +381,10 @@ func observe(w b6.World, ids []b6.FeatureID, qs []wk.RQ, b6qs []b6.Query, want w
 		sort.Strings(l)
 		return strings.Join(l, " | ")
 	})
+	if eachGeometry {
+		sort.Strings(gl)
+		d["each-geom"] = strings.Join(gl, " | ")
+	}
 	return d
 }
 
@@ -366,7 +400,7 @@ func typeOfSection(sec string) string {
 }
 
 // classify names the failing observation and the layering of the ID(s) involved.
-func classify(kind, sec, got, want string, base, upper wk.Spec) string {
+func classify(kind, sec, got, want string, layerOf func(b6.FeatureID) string) string {
 	class := wk.SectionClass(sec)
 	if strings.Contains(got, "PANIC(") {
 		i := strings.Index(got, "PANIC(")
@@ -376,16 +410,7 @@ func classify(kind, sec, got, want string, base, upper wk.Spec) string {
 	switch class {
 	case "has", "feat", "geom", "loc":
 		id := b6.FeatureIDFromString(sec[len(class)+1:])
-		layer := "absent"
-		switch {
-		case base.Find(id) != nil && upper.Find(id) != nil:
-			layer = "in-both-layers"
-		case upper.Find(id) != nil:
-			layer = "upper-only"
-		case base.Find(id) != nil:
-			layer = "base-only"
-		}
-		return kind + ":" + class + ":" + typeOfSection(sec) + ":" + layer
+		return kind + ":" + class + ":" + typeOfSection(sec) + ":" + layerOf(id)
 	}
 	// find / each: lists of versions
 	g, w := strings.Split(got, " | "), strings.Split(want, " | ")
@@ -438,7 +463,22 @@ func classify(kind, sec, got, want string, base, upper wk.Spec) string {
 	return kind + ":" + class + ":wrong-order"
 }
 
-func compare(r *kit.Result, kind string, got, want wk.Dump, base, upper wk.Spec, what func() string) bool {
+// layering of an ID in a pair of worlds
+func pairLayer(base, upper wk.Spec) func(b6.FeatureID) string {
+	return func(id b6.FeatureID) string {
+		switch {
+		case base.Find(id) != nil && upper.Find(id) != nil:
+			return "in-both-layers"
+		case upper.Find(id) != nil:
+			return "upper-only"
+		case base.Find(id) != nil:
+			return "base-only"
+		}
+		return "absent"
+	}
+}
+
+func compare(r *kit.Result, kind string, got, want wk.Dump, layerOf func(b6.FeatureID) string, what func() string) bool {
 	var secs []string
 	for k := range want {
 		secs = append(secs, k)
@@ -452,7 +492,7 @@ func compare(r *kit.Result, kind string, got, want wk.Dump, base, upper wk.Spec,
 			g = "MISSING-SECTION"
 		}
 		if g != want[k] {
-			c := classify(kind, k, g, want[k], base, upper)
+			c := classify(kind, k, g, want[k], layerOf)
 			if _, seen := byClass[c]; !seen {
 				order = append(order, c)
 			}
@@ -547,14 +587,43 @@ type part struct {
 	sch   wk.IDScheme
 	tier  string // which menu
 	kinds []string
+	h2    string // family of bases for the histories of up to 2 operations ("" = none)
+	h3    string // family of bases for the histories of up to 3 operations ("" = none)
+}
+
+// Families of base worlds for the edit histories (kind H; variant indices per
+// slot as in allowed). Every family holds both tagged points, the third and
+// fourth point and pathA, so that the features reference each other:
+// point <- path <- area <- relation <- relation.
+func allowedH(family string) [][]int {
+	switch family {
+	case "h2-quick": // point1 tagged | point2 tagged | both | pathA closed/open/mixed | pathB absent/open | area1 absent/by-pathA/polygon | rel1 absent/point+path/area+missing | rel2 absent/of-rel1
+		return [][]int{{1}, {1}, {0}, {0, 1, 3}, {0, 1}, {0, 1, 2}, {0, 1, 2}, {0, 1}}
+	case "h2-thorough":
+		return [][]int{{0, 1}, {0, 1}, {0}, {0, 1, 2, 3}, {0, 1, 2}, {0, 1, 2}, {0, 1, 2, 3}, {0, 1}}
+	case "h3-quick": // the whole chain: closed pathA, area1 by pathA, rel1 over area1, rel2 over rel1
+		return [][]int{{1}, {1}, {0}, {0}, {0}, {1}, {2}, {1}}
+	case "h3-thorough":
+		return [][]int{{1}, {1}, {0}, {0, 1}, {0, 1}, {1, 2}, {1, 2}, {1}}
+	}
+	panic("bad family " + family)
+}
+
+func sameChoice(a, b []int) bool {
+	for i := range a {
+		if a[i] != b[i] {
+			return false
+		}
+	}
+	return true
 }
 
 func build(tier string) (kit.Space, string) {
 	sl := slots()
 	osm, mixed, slash := wk.Schemes[0], wk.Schemes[6], wk.Schemes[2] // osm, mixed-ns, custom-2^63 (namespace with '/')
-	parts := []part{{osm, "quick", []string{"S", "M"}}, {mixed, "quick", []string{"S"}}}
+	parts := []part{{osm, "quick", []string{"S", "M"}, "h2-quick", "h3-quick"}, {mixed, "quick", []string{"S"}, "", ""}}
 	if tier == "thorough" {
-		parts = []part{{osm, "thorough", []string{"S", "M"}}, {mixed, "quick", []string{"S", "M"}}, {slash, "quick", []string{"S", "M"}}}
+		parts = []part{{osm, "thorough", []string{"S", "M"}, "h2-thorough", "h3-thorough"}, {mixed, "quick", []string{"S", "M"}, "h2-quick", "h3-quick"}, {slash, "quick", []string{"S", "M"}, "h2-quick", "h3-quick"}}
 	}
 	var sws []*schemeWorlds
 	var total int64
@@ -577,8 +646,59 @@ func build(tier string) (kit.Space, string) {
 	for i, q := range qs {
 		b6qs[i] = q.B6()
 	}
-	bound := strings.Join(bounds, "; ") + fmt.Sprintf("; %d tag queries, %d looked-up IDs", len(qs), len(wk.Universe(osm)))
+	// kind H: edit histories; after all pairs, histories of up to 2 operations before those of up to 3
+	pairs := total
+	var hcases []hcase
+	versions := map[string][]wk.FSpec{}
+	hsws := map[string]*schemeWorlds{}
+	deeps := map[string]map[int]bool{} // bases whose histories run to 3 operations
+	for _, p := range parts {
+		if p.h2 == "" {
+			continue
+		}
+		versions[p.sch.Name] = featureVersions(sl, p.sch)
+		sw := &schemeWorlds{sch: p.sch, all: enumerate(sl, allowedH(p.h2), p.sch), static: map[int]b6.World{}, infos: map[int]*winfo{}}
+		deep := map[int]bool{}
+		for _, d := range enumerate(sl, allowedH(p.h3), p.sch) {
+			for i, w := range sw.all {
+				if w.valid && sameChoice(w.choice, d.choice) {
+					deep[i] = true
+				}
+			}
+		}
+		hsws[p.sch.Name], deeps[p.sch.Name] = sw, deep
+	}
+	for depth := 2; depth <= 3; depth++ {
+		for _, p := range parts {
+			if p.h2 == "" {
+				continue
+			}
+			sw, deep := hsws[p.sch.Name], deeps[p.sch.Name]
+			nb, nc := 0, 0
+			for i, w := range sw.all {
+				switch {
+				case !w.valid || deep[i] != (depth == 3):
+				case depth == 2:
+					hcases = append(hcases, hcase{sw: sw, base: i, depth: 2, first: -1})
+					nb, nc = nb+1, nc+1
+				default:
+					ops, _ := opsOf(w.spec, versions[p.sch.Name])
+					for k := range ops {
+						hcases = append(hcases, hcase{sw: sw, base: i, depth: 3, first: k})
+					}
+					nb, nc = nb+1, nc+len(ops)
+				}
+			}
+			bounds = append(bounds, fmt.Sprintf("scheme %s, H: every history of 1..%d operations on a MutableOverlayWorld over each of %d base worlds (family %s; %d cases)", p.sch.Name, depth, nb, map[int]string{2: p.h2, 3: p.h3}[depth], nc))
+		}
+	}
+	total += int64(len(hcases))
+	bound := strings.Join(bounds, "; ") + fmt.Sprintf("; H alphabet: AddFeature of %d menu versions of the 9 menu IDs (re-add / replace / add, in scope when the whole world stays valid), and per held feature AddTag(name=h), RemoveTag(first plain key held), AddTag(#amenity=cafe), RemoveTag(first #/@ key held); %d tag queries, %d looked-up IDs", len(featureVersions(sl, osm)), len(qs), len(wk.Universe(osm)))
 	return kit.FuncSpace{N: total, F: func(i int64) kit.Result {
+		if i >= pairs {
+			c := hcases[i-pairs]
+			return runHistoryCase(c, qs, b6qs, versions[c.sw.sch.Name])
+		}
 		var r kit.Result
 		si := len(offs) - 1
 		for si > 0 && i < offs[si] {
@@ -631,7 +751,7 @@ func build(tier string) (kit.Space, string) {
 				want := expect(sw.info(bi, qs), sw.info(ui, qs), base.spec, up.spec, ids, qs)
 				got := observe(w, ids, qs, b6qs, want)
 				r.Evals++
-				good := compare(&r, kind, got, want, base.spec, up.spec, describe)
+				good := compare(&r, kind, got, want, pairLayer(base.spec, up.spec), describe)
 				nd := differingCommon(base.spec, up.spec)
 				if nd > 0 {
 					r.Distinct++ // non-trivial: some ID has different versions in the two layers
